@@ -62,6 +62,9 @@ func (g *gen) Add(name string, typs []types.Type) (string, error) {
 	if params.Len() != 1 {
 		return "", fmt.Errorf("%s, the second argument is a function, but wanted a function with one argument", name)
 	}
+	if sig.Variadic() {
+		return "", fmt.Errorf("%s, the function argument is variadic, which is not supported", name)
+	}
 	elemTyp := sliceTyp.Elem()
 	inTyp := params.At(0).Type()
 	if !types.Identical(inTyp, elemTyp) {
